@@ -294,6 +294,13 @@ pub fn c08_c09(run: &Run, out: &str, well_formed: bool) -> Vec<Viol> {
         } else {
             true
         };
+        if kind == "TextLiteral(MultiLine)" {
+            let rewritten = lex_stage(&run.events).is_some_and(|l| l.texts.len() == fin.texts.len() && l.texts[i] != fin.texts[i]);
+            let foreign = if nl == "\n" { text.contains('\r') } else { text.replace("\r\n", "").contains(['\r', '\n']) };
+            if rewritten && foreign {
+                res.push(Viol { prop: "C09", clause: "emitted_break_in_string", detail: format!("token {i}: re-indented string contains a break that is not the configured one") });
+            }
+        }
         if at_line_end && text.ends_with([' ', '\t']) {
             res.push(Viol { prop: "C08", clause: "trailing_blanks", detail: format!("token {i} {kind} ends in blanks at the end of a line: {:?}", tail_of(text)) });
         }
